@@ -35,7 +35,10 @@ def plan(tier, seed):
     regs.append('c12::DocKernels::reg()')
     # mixed-exponent expressions vs shift-and-operate code
     for l, r, el, er in [(S8, S8, -3, 0), (U8, U8, 0, -2), (S8, U8, 1, -1), (S32, S32, -16, -12), (S32, S32, -12, -16), (U32, U16, -8, 0), (S64, S32, -20, -4),
-                         (U64, U64, 3, 0), (S16, S32, -4, -8), (S32, S8, 0, 5), (U16, U16, -7, -1), (S64, S64, -30, -31)]:
+                         (U64, U64, 3, 0), (S16, S32, -4, -8), (S32, S8, 0, 5), (U16, U16, -7, -1), (S64, S64, -30, -31),
+                         # every order of (wider, narrower) rep x (coarser, finer) exponent
+                         (S64, S32, 0, -1), (S64, S32, -4, -20), (S64, S8, 3, 0), (S64, U16, -8, -16), (U64, U32, 0, -16), (U64, U8, 5, 1),
+                         (S32, S64, 0, -16), (S32, S16, 2, -2), (S16, S64, -4, -8), (U32, S64, 0, -4), (S8, S64, 1, -1), (U8, U64, 0, -3)]:
         regs.append('c12::ScaledMixed<%s, %d, %s, %d>::reg("%s:%d|%s:%d")' % (l, el, r, er, short(l), el, short(r), er))
     cases = 60000 if quick else 600000
     units = [Unit('C12-gxx-%d' % i, 'gxx', 'props/C12.h', part, rc_cases=cases, enum_max=2 ** 22, chunk=3)
